@@ -369,7 +369,20 @@ func (x *Exec) bytesTerms(t string, out *[]string) {
 
 // findCandidate returns Go literals for the parameters of x.fn that make the instance fail according to some solver model.
 func (x *Exec) findCandidate(o *Oblig, workDir string, timeoutS int) *candidate {
-	q := x.buildQuery(o, false)
+	// replay hints: extra constraints used only while searching for an input (never in a proof)
+	extra := ""
+	for _, ra := range x.con.ReplayAssume {
+		se := x.specEnv(x.entry, x.env0, nil)
+		se.where = "replay-assume"
+		nd := len(x.entry.decls)
+		if t, err := x.evalSpec(se, ra.Expr); err == nil {
+			for _, d := range x.entry.decls[nd:] {
+				extra += d + "\n"
+			}
+			extra += "(assert " + t + ")\n"
+		}
+	}
+	q := x.buildQueryExtra(o, false, extra)
 	var terms []string
 	for _, p := range x.fn.Params {
 		v := x.env0[p]
